@@ -31,6 +31,7 @@ func init() {
 		Run:  c10Prefix})
 	register(&Rule{ID: "C10.total", Floor: 4,
 		Text: "FromBasePath panics on a path outside the base: every call of it is dominated by a HasPrefix(path, basePath) test on the same argument (as fromErrorPath does)",
+		Also: []string{"C07"},
 		Run:  c10Total})
 	register(&Rule{ID: "C10.escape", Floor: 2,
 		Text: "no base file reaches a caller unwrapped (BasePathFile{baseFile:..}); exceptions by contract: a file returned together with its own non-nil error, and the base's Sub view, which is itself rooted below the base path",
